@@ -185,8 +185,14 @@ def body_chains(sel: int) -> bool:
                 except DecayNotFound:
                     pass
             continue
+        live = [] if mi % 2 == 0 else set()        # one container object the caller keeps and edits in place between calls (C09-m12)
         for k, S in enumerate(sets):
-            Sarg = [list, tuple, set][k % 3](S)
+            if k % 4 in (1, 2):
+                live.clear()
+                (live.extend if isinstance(live, list) else live.update)(S)
+                Sarg = live
+            else:
+                Sarg = [list, tuple, set][k % 3](S)
             got = p.build_decay_chains(m, stable_particles=Sarg)
             exp = oracle_chain(tables, m, set(S))
             if got != exp:
